@@ -9,8 +9,8 @@ V = os.path.dirname(os.path.dirname(os.path.abspath(__file__)))
 E1 = "bounded-exhaustive enumeration of a finite input space on the real code against a reference model (small-scope explicit enumeration, no sampling)"
 CHECKS = {
  "C01": ("exploration", E1 + ": expression trees vs an exact reference evaluator",
-         "Every fully parenthesised expression tree up to 4 (thorough 5) leaves over a literal ladder (integers, decimals, exponent forms, huge/tiny magnitudes and each percent literal next to its plain twin) and all five operators is evaluated by the real parser+evaluator and compared with an independent exact evaluator run on the generating tree; exhaustive within the stated bound.",
-         "num::BigRational is exact; sizes between the ladder rungs behave like the rungs; layout/precedence are C06's subject.", "3 C01"),
+         "Every fully parenthesised expression tree up to 4 (thorough 5) leaves over a literal ladder (integers, decimals, exponent forms, huge/tiny magnitudes and each percent literal next to its plain twin) and all five operators is evaluated by the real parser+evaluator and compared with an independent exact evaluator run on the generating tree; every operator sequence of length 1..4 (thorough 5) is also written without parentheses and compared with the tree the documented precedence table prescribes; exhaustive within the stated bound.",
+         "num::BigRational is exact; sizes between the ladder rungs behave like the rungs; blank layout is C06's subject.", "3 C01"),
  "C02": ("exploration", E1 + ": all ordered pairs of a unit-spelling set x {+,-,to} vs dimension vectors of an independent unit table",
          "Every ordered pair of ~450 (thorough ~1050) unit spellings (all units, prefixed, products/quotients, powered and prefixed-and-powered, spellings that cancel over the same or over different unit names, spellings that contribute/cancel/re-contribute a base) under + - and to, with non-zero and with zero-valued (written and computed) operands, plus plain-number adoption in both operand orders: Ok iff the independent table gives equal base dimensions, with exact SI value and the cast result expressed in the target unit.",
          "Independent unit table (tables.rs); syntactically cancelling spellings (m/m) and prefixed words the tool rejects are not judged.", "3 C02"),
@@ -24,7 +24,7 @@ CHECKS = {
          "Every name x every prefix spelling, every 2-name concatenation, short 3-name concatenations and all unit expressions of <=3 (4) items through both entry points; an accepted word must mean one of its valid segmentations over the independent table, bare documented names their own (standard) meaning; every documented unit under the powers 1,-1,2,-2,3 is converted to its dimensions spelled in base units (exact scale^p), which exercises the tool's own per-unit expansion.",
          "Independent table; nine recorded findings (logos lexer drops characters; three test-pinned definitions) are listed in known_findings.txt.", "3 C05"),
  "C06": ("exploration", E1 + ": operator sequences x bracketings x blank layouts vs the documented precedence table",
-         "All operator sequences up to length 5 over + - * / ^ with every bracketing (Catalan), minimal and full parentheses, redundant parentheses, function-argument position (incl. a call as the digits argument), `to` chains whose root cast must be expressed in the target unit, and blank layouts (all combinations of homogeneous gaps for <=2 operators, uniform + 1/2-slot deviations beyond, deviations including gaps that mix spaces and tabs) are evaluated and compared with the reference evaluation of the tree the documented grammar prescribes.",
+         "All operator sequences up to length 5 over + - * / ^ with every bracketing (Catalan), minimal and full parentheses, redundant parentheses, function-argument position (incl. a call as the digits argument), `to` chains whose root cast must be expressed in the target unit, every sequence of up to 3 operators over operands that carry a unit (a number with its unit is one value), and blank layouts (all combinations of homogeneous gaps for <=2 operators, uniform + 1/2-slot deviations beyond, deviations including gaps that mix spaces and tabs) are evaluated and compared with the reference evaluation of the tree the documented grammar prescribes.",
          "Trees outside the statement's domain (non-integer or >1000 exponents) are counted, not judged; + - and `to` keep >=1 blank as the statement says.", "3 C06"),
  "C07": ("exploration", E1 + ": the literal grammar up to length 7 plus a size ladder vs an own decimal reader",
          "Every literal of the grammar up to length 7 over a reduced digit alphabet ({0,1,9}; thorough {0,1,5,9}), all ten digits to length 4 (thorough 5), plus 20..300-digit ladder literals, read by both the library parser and the query path and compared with an independent reader.",
@@ -33,10 +33,10 @@ CHECKS = {
          "Every value of a rational grid (small p/q, p/q*10^k for k in -40..40, neighbours of powers of ten) under every limit x exponent_limit spec (quick 42, thorough 300), mark on and off; the printed text is re-read by an own reader and must be the truncation toward zero with mark iff something non-zero was cut.",
          "Magnitudes between grid points behave like the points.", "3 C08"),
  "C10": ("exploration", E1 + ": rational grid x {floor,ceil,round,round(x,n)} vs integer-arithmetic definitions, in release and debug-assertion builds",
-         "Every p/q of a grid (|p| <= 40, q <= 8; thorough |p| <= 400, q <= 40; negatives, integers, halves, boundary +-10^-k for k<=7, and integer/half +-10^-k for k in 8..25 at magnitudes 0..2^64) through floor/ceil/round/round(x,n), n=-6..6, units carried, nested calls (a call as value or as digits argument), wrong arities incl. nested ones; compared with exact integer definitions; both build profiles so debug-only assertions count.",
+         "Every p/q of a grid (|p| <= 40, q <= 8; thorough |p| <= 400, q <= 40; negatives, integers, halves, boundary +-10^-k for k<=7, and integer/half +-10^-k for k in 8..25 at magnitudes 0..2^64) through floor/ceil/round/round(x,n), n=-6..6, two-step histories round(x,n1) then round(y,n2) on one thread for every ordered pair of 20 digit counts up to +-39, units carried, nested calls (a call as value or as digits argument), wrong arities incl. nested ones; compared with exact integer definitions; both build profiles so debug-only assertions count.",
          "Non-integer digits arguments are not judged.", "3 C10"),
  "C09": ("exploration", E1 + ": magnitudes x scale pairs x chains x non-alone positions vs the affine formulas",
-         "12 magnitudes x 36 scale-spelling pairs (thorough: also every multiple of 1/8 from -500 to 1000 x the nine scale pairs), all chains up to length 4 (thorough 5), every ordered pair of 21 prefixed scale words (m k n G milli kilo on K, degC, degF) x 5 magnitudes and chains through a prefixed scale, and several casts in one query, sums and differences of two temperatures over all 36 spelling pairs, and every placement of a scale that is not alone with power one (powers, products, quotients) - the latter must be refused or treated as an interval.",
+         "12 magnitudes x 36 scale-spelling pairs (thorough: also every multiple of 1/8 from -500 to 1000 x the nine scale pairs), all chains up to length 4 (thorough 5), every ordered pair of 21 prefixed scale words (m k n G milli kilo on K, degC, degF) x 5 magnitudes and chains through a prefixed scale, and several casts in one query, sums and differences of two temperatures over all 36 spelling pairs, each also converted afterwards to every scale (with and without parentheses), and every placement of a scale that is not alone with power one (powers, products, quotients) - the latter must be refused or treated as an interval.",
          "The affine formulas are written out in the harness.", "3 C09"),
  "C11": ("exploration", E1 + ": token soups, unicode strings and 1/2-edit neighbourhoods of seeds; no panic/abort/hang, located errors; both build profiles and the real binary on a stride",
          "All token sequences <=3 (4) over 46 tokens (incl. values that are zero only after a unit conversion) x joiner patterns, all unicode strings <=4 (5) over 30 code points, every 1-edit (thorough 2-edit) of 66 seeds, a repetition/nesting ladder (k up to 257) over 1..2 structural tokens, in release and debug-assertion builds; each result must display or be an error with an in-bounds char-boundary range that the diagnostic renderer accepts; worker processes attribute aborts and hangs to the input.",
@@ -51,7 +51,7 @@ CHECKS = {
          "Every assignment of documents to indexing workers (symmetry-reduced), every order of equally sized segments, merge timing and merge input order is enumerated on the real Db::in_memory()/Db::open() over reduced data sets of shipped constants that tie for the ambiguous probes; every session history of up to 2 (thorough 4) sessions over {in-memory build, on-disk session, on-disk session over other data} is explored the same way (a disk session after another is a reopen or a rebuild); every session of every execution must answer the probe set like the reference execution (and own-word probes must find their constant); on-disk layouts are read back from the real index; the full shipped data runs under corner schedules, each followed by every single deviation at every tie-order and merge-timing point (so a build that leaves several equal-sized segments is explored in every segment order). Probes: every constant's full word set, every distinct single word of the data set, word prefixes of length 1..3 and ordered pairs of word initials; every probe is asked twice per session (one database answering differently is a violation in itself).",
          "Layout depends on scheduling only through the four gated seams (argued in DESIGN 2.6, cross-checked by reading real on-disk layouts back); nondeterminism that does not pass through those seams is not enumerated, only observed through the run's independent builds and double-asked probes; vendored tantivy = registry 0.19.2 + vendor/tantivy-gates.patch (checked in setup); hook H1 (asset directory seam) supplies the reduced data sets.", "3 C14"),
  "C15": ("fault_enumeration", "exhaustive crash-point (and torn-write) enumeration of the real start-up under an LD_PRELOAD fault injector, crossed with prior directory states and followed by crash-free starts",
-         "The real Db::open() is killed before every one of its file-system mutations (every point; thorough also torn writes and two-crash histories: every pair of crash points from the absent prior) from each prior directory state; after each crash: meta.json current => index complete (checked with tantivy independently), and two crash-free starts must answer the probe set exactly like a fresh in-memory database. Every listed prior state (absent, other major version, next patch version / build suffix over an index with other content, other data, missing/truncated/garbage metadata incl. every proper prefix, 18 well-formed JSON documents of the wrong shape, missing index directory) is also started crash-free.",
+         "The real Db::open() is killed before every one of its file-system mutations (every point; thorough also torn writes and two-crash histories: every pair of crash points from the absent prior) from each prior directory state; after each crash: meta.json current => index complete (checked with tantivy independently), and two crash-free starts must answer the probe set exactly like a fresh in-memory database. Every listed prior state (absent, other major version, next patch version / build suffix over an index with other content, an index in another build's layout under seven near-current version strings, other data, missing/truncated/garbage metadata incl. every proper prefix, 18 well-formed JSON documents of the wrong shape, missing index directory) is also started crash-free.",
          "Process-crash model (no power-loss reordering); tantivy's raw-syscall renames are bracketed by interposed calls; the crashed directory is the replay artefact.", "3 C15"),
  "C16": ("exploration", E1 + ": every shipped constant x every permutation of its words",
          "All 878 constants decoded independently; every typeable permutation of their words is looked up with descriptions on; the returned constant must carry the words and its value and unit must equal those stored in the data file (read without the subject's types).",
